@@ -48,7 +48,10 @@ func ParseResponses(buf []byte, methods []string, fin bool) ([]*Resp, int, error
 		br := bufio.NewReaderSize(rd, 1<<16)
 		resp, err := http.ReadResponse(br, &http.Request{Method: method})
 		if err != nil {
-			if isShort(err) && !fin {
+			if !fin {
+				// while the stream is still open every parse failure may be a
+				// short read (net/http has several private "unexpected EOF" errors);
+				// a really malformed stream is reported when it ends
 				return out, off, ErrIncomplete
 			}
 			if isShort(err) && fin && len(bytes.TrimSpace(buf[off:])) == 0 {
@@ -63,7 +66,7 @@ func ParseResponses(buf []byte, methods []string, fin bool) ([]*Resp, int, error
 		}
 		body, err := io.ReadAll(resp.Body)
 		if err != nil {
-			if isShort(err) && !fin {
+			if !fin {
 				return out, off, ErrIncomplete
 			}
 			return out, off, err
